@@ -90,8 +90,15 @@ def run_map_case(case):
     pm = plot.PlotMode[mode]
     msgs = []
     fig = plt.figure()
+    # another figure is opened in between: the figure handed to evo is not
+    # pyplot's "current" one (a multi-figure application)
+    decoy = plt.figure()
+    decoy_ax = decoy.add_subplot(111)
     try:
         ax = plot.prepare_axis(fig, pm, length_unit=Unit(case["unit"]))
+        if decoy_ax.get_xlabel() or decoy_ax.get_ylabel() or len(
+                decoy.axes) != 1:
+            msgs.append("prepare_axis wrote to a figure it was not given")
         want = ["$%s$ (%s)" % (c, case["unit"]) for c in mode]
         got = [ax.get_xlabel(), ax.get_ylabel()] + ([ax.get_zlabel()]
                                                     if three else [])
@@ -215,6 +222,7 @@ def run_map_case(case):
                                 % (len(segs), n))
     finally:
         plt.close(fig)
+        plt.close(decoy)
     return msgs
 
 
